@@ -1399,7 +1399,7 @@ class t2data(object):
                 keyword = line[0: 5].strip()
                 if keyword in mesh_sections:
                     read_fn[keyword](infile)
-                    self._sections.append(keyword)
+                    self.insert_section(keyword)
             else: more = False
 
     def read_binary_meshfiles(self):
